@@ -26,4 +26,5 @@ RE_PATTERN_ESCAPES = [
     ("]"     , "\u005c]"),
     ("("     , "\u005c("),
     (")"     , "\u005c)"),
+    ("|"     , "\u005c|"),
 ]
